@@ -195,6 +195,11 @@ macro_rules! forms {
                         ("sum borrowed", pt(&items[..n].iter().sum::<D>()), &s),
                         ("product owned", pt(&items[..n].iter().cloned().product::<D>()), &p),
                         ("product borrowed", pt(&items[..n].iter().product::<D>()), &p),
+                        // adaptors whose size hint has the lower bound 0 although they yield items
+                        ("sum owned filter", pt(&items[..n].iter().cloned().filter(|_| true).sum::<D>()), &s),
+                        ("sum borrowed filter", pt(&items[..n].iter().filter(|_| true).sum::<D>()), &s),
+                        ("product owned filter", pt(&items[..n].iter().cloned().filter(|_| true).product::<D>()), &p),
+                        ("sum owned flat_map", pt(&items[..n].iter().flat_map(|x| std::iter::once(x.clone())).sum::<D>()), &s),
                     ];
                     for (name, g, want) in forms {
                         $st.evaluations += 1;
